@@ -2,7 +2,7 @@
 C17 — helper lemmas about the wavelet model (`Model/C17.lean`), over an arbitrary field `K`
 (characteristic ≠ 2 where a division by two has to be undone).
 -/
-import Mahotas.Model.C17
+import Mahotas.Model.C17Core
 import Mathlib.Tactic.Ring
 import Mathlib.Tactic.FieldSimp
 import Mathlib.Tactic.Linarith
